@@ -239,3 +239,25 @@ def rule_flush_all_paths(ctx, R):
             R.finding(APPEND, "flush:not-on-every-path",
                       "append_command can return Ok after serialising the command without flushing the buffered writer (a branch skips the flush): the command stays in process memory until some later write, and is lost -- or the file ends mid-frame -- if the server stops first",
                       b.loc(i), witness=["bb%d %s" % (x, b.loc(x)) for x in p_][:8])
+
+
+def rule_once(ctx, R):
+    """`represented once`: the append hook lives in process_normal_command.  A function that
+    appends to the AOF itself must not also hand the command to process_normal_command (whose
+    hook would log it a second time), and nothing else on the command path appends"""
+    n = 0
+    for fn, b in sorted(ctx.prog.bodies.items()):
+        if "::tests::" in fn or fn.startswith("storage::aof::"):
+            continue
+        ap = [i for body, i, t in shared.deep_calls(ctx, b) if body is b and callee(t) == APPEND]
+        if not ap:
+            continue
+        n += 1
+        if fn == PNC:
+            R.inst(fn, "append-site", {"function": fn, "is_the_hook": True}); continue
+        redispatch = PNC in ctx.cg.reach([fn])
+        R.inst(fn, "append-site", {"function": fn, "is_the_hook": False, "also_reaches_the_dispatcher_hook": redispatch})
+        if redispatch:
+            R.finding(fn, "append-outside-hook:and-redispatch",
+                      "%s appends commands to the AOF itself (line %d) and also runs them through process_normal_command, whose hook appends them again: the commands appear twice in the log and a non-idempotent one (INCR, APPEND, RPUSH) replays to a different dataset" % (fn.split("::")[-1], b.bb_line(ap[0])), b.loc(ap[0]))
+    R.floor("functions_appending_to_the_aof", n)
